@@ -46,6 +46,12 @@ def refusing_calls(rng, sh):
             lits = [rand_lit(rng, [], [b'cfresh'], sh.nsub + 1) for _ in range(nf)]
             out.append(('analogcol:sub-frames+1', ['analogcol 0 %d %s' % (nf, ' '.join(l.text() for l in lits))]))
             out.append(('analog:dup', ['analog 0 ' + hx(dupc)]))
+            if sh.nsub >= 2:
+                # a stored frame with fewer sub-frames than the data set (frame() only looks at sub-frame 0), then a well-formed column
+                short = rand_lit(rng, sh.pts, sh.chans, sh.nsub - 1)
+                lits = [rand_lit(rng, [], [b'cfresh'], sh.nsub) for _ in range(nf + 1)]
+                out.append(('analogcol:stored-frame-has-fewer-subframes', ['frame 0 - ' + short.text(), 'snap 0', 'analogcol 0 %d %s' % (nf + 1, ' '.join(l.text() for l in lits))]))
+                out.append(('analog:stored-frame-has-fewer-subframes', ['frame 0 - ' + short.text(), 'snap 0', 'analog 0 ' + hx(b'cfresh9')]))
         out.append(('analogcol:none', ['analogcol 0 0']))
         if sh.pts: out.append(('point:dup', ['point 0 ' + hx(sh.pts[-1] + b' ')]))
     out.append(('param:unnamed', ['P.new x x', 'P.set I 0 1 5', 'param 0 ' + hx(b'POINT')]))
